@@ -18,7 +18,7 @@ func init() {
 	Register("C01", &Info{
 		Run:   runC01,
 		Quick: 3000, Thor: 300000,
-		Rule: "a world = one fingerprint (every predefined parrot by stratum, randomized seeds, generated specs; never HelloGolang) with explicit BuildHandshakeState followed by 0-6 documented edits (SetClientRandom, SetSNI, append/remove/replace/swap of non-session extensions, Hello.CipherSuites, Hello.SessionId, a second BuildHandshakeState) and Handshake against a plain or HelloRetryRequest-forcing server, optionally as the second connection of a history with a cached session (ticket / PSK binder patch); the scheduler snapshots HandshakeState.Hello.Raw when the client's first write is performed; oracle: first hello on the wire == that snapshot byte for byte, every edit visible in the independent parse, Hello.Raw after the handshake == last hello on the wire; non-trivial = >=1 edit applied and a hello reached the wire; distinct = (fingerprint, edit sequence, server kind)",
+		Rule: "a world = one fingerprint (every predefined parrot by stratum, randomized seeds, generated specs; never HelloGolang) with explicit BuildHandshakeState followed by 0-6 documented edits (SetClientRandom, SetSNI, append/remove/replace/swap of non-session extensions, Hello.CipherSuites, Hello.SessionId, a second BuildHandshakeState) and Handshake against a plain or HelloRetryRequest-forcing server, optionally as the second connection of a history with a cached session (ticket / PSK binder patch); in a quarter of the worlds one or two further tasks call Handshake on the same UConn after a drawn number of scheduler steps (they queue on the handshake mutex or find the handshake complete); the scheduler snapshots HandshakeState.Hello.Raw when the client's first write is performed; oracle: first hello on the wire == that snapshot byte for byte, every edit visible in the independent parse, Hello.Raw after the handshake - when Handshake returned and again when every task of the connection has finished - == last hello on the wire; non-trivial = >=1 edit applied and a hello reached the wire; distinct = (fingerprint, edit sequence, server kind)",
 		Assumptions: []string{"only the listed public mutators are applied; arbitrary reflection-level edits are out of scope",
 			"expected extension order after an edit is derived by applying the same list edit to the type sequence parsed from the hello built before the edits (no knowledge of extension type ids is taken from the library)"},
 		Real: []string{"utls client from /repo", "utls or std server"},
@@ -71,8 +71,15 @@ func runC01(c *Ctx) {
 	srvMax := []uint16{tls.VersionTLS13, tls.VersionTLS12}[ch.Pick(3, "srvmax")%2]
 	peer := ch.Pick(2, "peer")
 	frag := ch.Bool(50, "frag")
+	// further callers of Handshake on the same connection (they wait on the handshake mutex or find
+	// the handshake complete): whoever calls, the hello that was sent stays the one in Hello.Raw
+	extra := 0
+	if ch.Bool(25, "extra-callers") {
+		extra = 1 + ch.Pick(2, "n-extra")
+	}
+	extraDelay := []int{ch.Range(0, 40, "extra-delay"), ch.Range(0, 200, "extra-delay")}
 
-	w := c.NewWorld(simrt.Config{})
+	w := c.NewWorld(simrt.Config{LockYield: extra > 0 && ch.Bool(50, "lockyield")})
 	cache := tls.NewLRUClientSessionCache(8)
 	mk := func() *tls.Config {
 		cfg := &tls.Config{ServerName: "example.test", InsecureSkipVerify: true, OmitEmptyPsk: true, PreferSkipResumptionOnNilExtension: true}
@@ -111,6 +118,9 @@ func runC01(c *Ctx) {
 		var ex expect
 		sp := &ConnSpec{Name: fmt.Sprintf("c%d", i), ID: idi.ID, Spec: freshSpec(newSpec), CCfg: mk(), Peer: peer, SCfg: scfg, StdCfg: stdcfg,
 			Payload: [][]byte{[]byte("ping")}, Setup: func(l *simnet.Link) { l.Frag = frag }}
+		if last {
+			sp.ExtraHandshakers, sp.ExtraDelay = extra, extraDelay
+		}
 		sp.Prep = func(u *tls.UConn) error {
 			if err := u.BuildHandshakeState(); err != nil {
 				return err
@@ -252,7 +262,7 @@ func runC01(c *Ctx) {
 		if !last {
 			continue
 		}
-		c.R.Class = fmt.Sprintf("%s/%s muts=%s hrr=%v hist=%v max=%x peer=%s", kind, idi.Name, strings.Join(mnames, ","), forceHRR, history, srvMax, peerName(peer))
+		c.R.Class = fmt.Sprintf("%s/%s muts=%s hrr=%v hist=%v max=%x peer=%s callers=%d", kind, idi.Name, strings.Join(mnames, ","), forceHRR, history, srvMax, peerName(peer), 1+extra)
 		if o.BuildErr != nil {
 			c.Probe("build-error")
 			break
@@ -325,6 +335,13 @@ func runC01(c *Ctx) {
 		// (3) after the handshake Hello.Raw is the last hello sent
 		if o.CDone || len(obs.CH) > 1 {
 			lastRaw := obs.CHRaw[len(obs.CHRaw)-1]
+			if o.CDone && !bytes.Equal(o.HelloRawEnd, lastRaw) {
+				nran := 0
+				for _, r := range o.ExtraRan {
+					nran += boolInt(r)
+				}
+				c.Violate("Hello.Raw-at-end-of-connection-differs-from-last-hello "+kind, "%s: %d hellos on the wire; Hello.Raw when the connection was closed %d bytes vs last hello %d bytes, first difference at %d; %d further Handshake callers ran (%v)", c.R.Class, len(obs.CH), len(o.HelloRawEnd), len(lastRaw), firstDiff(o.HelloRawEnd, lastRaw), nran, o.ExtraErrs)
+			}
 			if !bytes.Equal(o.HelloRaw, lastRaw) {
 				c.Violate("Hello.Raw-after-handshake-differs-from-last-hello "+kind, "%s: %d hellos on the wire; Hello.Raw %d bytes vs last hello %d bytes, first difference at %d; cerr=%v", c.R.Class, len(obs.CH), len(o.HelloRaw), len(lastRaw), firstDiff(o.HelloRaw, lastRaw), o.CErr)
 			}
